@@ -92,6 +92,14 @@ Definition current_listed (d : jv) : bool :=
   | _, _ => false
   end.
 
+(* specification vocabulary: the document names a current snapshot (its current_snapshot_id is not null and not -1, "no
+   snapshot yet") and NONE of the snapshots it lists has that id -- the document contradicts itself about which snapshots
+   the table has (`snapshots: []` under a set current_snapshot_id; the current snapshot gone from the list) *)
+Definition dangling_current (d : jv) : Prop :=
+  exists c items, py_getitem d gen_current_snapshot_key = Some c /\ py_getitem d gen_snapshots_key = Some (JArr items)
+    /\ c <> JNull /\ py_eqb c (JNum (-1)) = false
+    /\ forall it, In it items -> forall i, py_getitem it gen_snapshot_id_key = Some i -> py_eqb i c = false.
+
 Definition collect_doc (ext : string -> jv -> bool) (tp : string) (grace now timeout : Z) (o : oracle) (d : jv) (st : store) : doc_result :=
   if accepts ext gen_metadata_shape d then
     if negb COLLECT_CHECKS_CURRENT_SNAPSHOT || current_listed d then DocRun (gc_run tp grace now timeout o (doc_lists d) st)
